@@ -652,6 +652,128 @@ func runC04(w *World, r *Report) {
 		r.check(bad == "", "signed-layout-is-data-independent", cv[0]+"."+cv[2], w.Pos(fn.Pos()), "fields are written in a fixed order at places that depend at most on lengths", bad)
 	}
 
+	// 4c. a creation time enters the signed bytes with everything it has: UnixNano is the only accessor of time.Time that keeps
+	// the full precision of what is stored and transmitted (the wire form and the storage form carry nanoseconds)
+	r.rule("signed-time-at-full-precision", "in the builders of the signed messages (Vertex.initData, Transaction.GetMessage, transaction.New, Transaction.Sign and their same-package helpers) a time.Time is read only with UnixNano, and the number read is not narrowed by a division, remainder, shift or mask before it is written: a coarser reading (Unix, UnixMilli, UnixMicro, Truncate, Round …) leaves the low digits of the stored creation time outside the signature", 3)
+	for _, cv := range [][3]string{{"accountant", "Vertex", "initData"}, {"transaction", "Transaction", "GetMessage"}, {"transaction", "", "New"}, {"transaction", "Transaction", "Sign"}} {
+		fn := w.Func(cv[0], cv[1], cv[2])
+		if fn == nil {
+			continue
+		}
+		bad := ""
+		n := 0
+		for _, g := range withHelpers(fn, 2) {
+			instrsOf(g, func(in ssa.Instruction) {
+				c, ok := in.(*ssa.Call)
+				if !ok {
+					return
+				}
+				cal := c.Call.StaticCallee()
+				if cal == nil || cal.Pkg == nil || cal.Pkg.Pkg.Path() != "time" || cal.Signature.Recv() == nil || !strings.HasSuffix(cal.Signature.Recv().Type().String(), "time.Time") {
+					return
+				}
+				if cal.Name() != "UnixNano" {
+					// a coarse reading that only decides a comparison (the freshness window of Sign) writes nothing
+					var written func(v ssa.Value, depth int) bool
+					written = func(v ssa.Value, depth int) bool {
+						if depth > 4 || v.Referrers() == nil {
+							return false
+						}
+						for _, ref := range *v.Referrers() {
+							switch x := ref.(type) {
+							case *ssa.Convert:
+								if written(x, depth+1) {
+									return true
+								}
+							case *ssa.ChangeType:
+								if written(x, depth+1) {
+									return true
+								}
+							case *ssa.Phi:
+								if written(x, depth+1) {
+									return true
+								}
+							case *ssa.BinOp:
+								switch x.Op {
+								case token.EQL, token.NEQ, token.LSS, token.LEQ, token.GTR, token.GEQ:
+								default:
+									if written(x, depth+1) {
+										return true
+									}
+								}
+							case *ssa.Store:
+								if x.Val == v {
+									return true
+								}
+							case *ssa.Return:
+								for _, cs := range staticCallers(w, x.Parent()) {
+									if cv, isVal := cs.(ssa.Value); isVal && written(cv, depth+1) {
+										return true
+									}
+								}
+							case ssa.CallInstruction:
+								n := calleeName(x)
+								if cal2 := x.Common().StaticCallee(); cal2 != nil && cal2.Pkg != nil && cal2.Pkg.Pkg.Path() == "time" {
+									if cv, isVal := x.(ssa.Value); isVal && written(cv, depth+1) {
+										return true
+									}
+									continue
+								}
+								if !strings.HasPrefix(n, "fmt.") && !strings.Contains(n, "logger.") && !strings.Contains(n, "/logging.") {
+									return true
+								}
+							}
+						}
+						return false
+					}
+					if !written(c, 0) {
+						return
+					}
+					if bt, isBasic := cal.Signature.Results().At(0).Type().Underlying().(*types.Basic); cal.Signature.Results().Len() == 1 && (isBasic && bt.Info()&types.IsInteger != 0 || strings.HasSuffix(cal.Signature.Results().At(0).Type().String(), "time.Time")) {
+						bad += fmt.Sprintf(" %s reads the time with %s at %s;", shortFn(g), cal.Name(), lineOf(w, c))
+					}
+					return
+				}
+				n++
+				var narrowed func(v ssa.Value, depth int) string
+				narrowed = func(v ssa.Value, depth int) string {
+					if depth > 4 || v.Referrers() == nil {
+						return ""
+					}
+					for _, ref := range *v.Referrers() {
+						switch x := ref.(type) {
+						case *ssa.BinOp:
+							switch x.Op {
+							case token.QUO, token.REM, token.SHR, token.AND, token.AND_NOT:
+								if x.X == v {
+									return fmt.Sprintf(" the nanoseconds read at %s are narrowed by %s at %s;", lineOf(w, c), x.Op, lineOf(w, x))
+								}
+							}
+							if s := narrowed(x, depth+1); s != "" {
+								return s
+							}
+						case *ssa.Convert:
+							if bt, ok := x.Type().Underlying().(*types.Basic); ok && bt.Info()&types.IsInteger != 0 && (bt.Kind() == types.Int8 || bt.Kind() == types.Int16 || bt.Kind() == types.Int32 || bt.Kind() == types.Uint8 || bt.Kind() == types.Uint16 || bt.Kind() == types.Uint32) {
+								return fmt.Sprintf(" the nanoseconds read at %s are converted to %s at %s;", lineOf(w, c), bt, lineOf(w, x))
+							}
+							if s := narrowed(x, depth+1); s != "" {
+								return s
+							}
+						case *ssa.Phi:
+							if s := narrowed(x, depth+1); s != "" {
+								return s
+							}
+						}
+					}
+					return ""
+				}
+				bad += narrowed(c, 0)
+			})
+		}
+		r.seen(shortFn(fn))
+		r.check(bad == "" && n > 0, "signed-time-at-full-precision", cv[0]+"."+strings.TrimPrefix(cv[1]+".", ".")+cv[2], w.Pos(fn.Pos()), fmt.Sprintf("the creation time is read %d time(s), with UnixNano, and written as read", n), bad)
+	}
+
 	// 5. conditionally verified field must be bound
 	r.rule("conditional-signature-bound", "a signature whose verification is selected by a test on the field itself must contribute (content or presence) to an authenticated digest", 1)
 	if f := w.fx(r, "accountant", "Vertex", "verify"); f != nil {
